@@ -204,7 +204,7 @@ def run_stream(cfg):
                 return Result(False, key='C16:variance-negative', detail=f'call {t + 1}: variance of {f!r} is {v!r}')
         bounds = {}
         for delta in cfg['deltas']:
-            dl = float(Q(delta))
+            dl = float(delta) if 'e' in delta else float(Q(delta))
             try:
                 b = ex.get_confidence_bound(dl)
             except Exception as e:
@@ -213,7 +213,8 @@ def run_stream(cfg):
                 return Result(False, key='C16:bound-keys', detail=f'bound keys {list(b)!r}')
             for f in cfg['names']:
                 vf = float(var[f])
-                want = (1 - alpha) ** ex.seen_samples + math.sqrt(vf * alpha / ((2 - alpha) * dl))
+                # product of roots: the quotient under ONE root would overflow for subnormal delta although the bound is representable
+                want = (1 - alpha) ** ex.seen_samples + math.sqrt(vf) * math.sqrt(alpha / (2 - alpha)) / math.sqrt(dl)
                 g = b[f]
                 if not (isinstance(g, (int, float, np.floating, Q)) and math.isfinite(float(g)) and float(g) >= 0
                         and (float(g) > 0 or want == 0)
@@ -222,6 +223,8 @@ def run_stream(cfg):
                                   detail=f'call {t + 1} delta={dl} feature {f!r}: bound {g!r}, formula gives {want!r} (var {vf!r}, alpha {alpha}, t {ex.seen_samples})')
             bounds[dl] = b
         ds = sorted(bounds)
+        if ds and ds[0] < 1e-290:
+            labels.append('subnormal_or_tiny_delta')
         for d1, d2 in zip(ds, ds[1:]):
             for f in cfg['names']:
                 if float(bounds[d1][f]) < float(bounds[d2][f]):
@@ -276,7 +279,7 @@ def stream_cases(draw, tmax):
             o['w'] = [0] * (cfg['d'] + len(cfg.get('extra') or []))
             o['pair'] = None
             o['gate'] = None
-    cfg['deltas'] = draw(st.lists(st.sampled_from(['1', '1/2', '1/10', '1/100', '1/1000000', '3/4', '1/1000000000000']),
+    cfg['deltas'] = draw(st.lists(st.sampled_from(['1', '1/2', '1/10', '1/100', '1/1000000', '3/4', '1/1000000000000', '1e-300', '1e-310', '5e-324']),
                                   min_size=1, max_size=3, unique=True))
     return cfg
 
